@@ -156,7 +156,7 @@ def expect(g, tb, data, skip_ws=True, skip_nl=True, ctx_mode=None, matchers=None
                 node_val[id(node)] = (bid, items + [vid])
             elif rule.ftor == 'x':
                 if ctx_mode == 21: hdr = '=c#0'
-                elif ctx_mode == 22: hdr = '~m#%d' % xcount
+                elif ctx_mode in (22, 26): hdr = '~m#%d' % xcount
                 else: hdr = '=m#%d' % xcount
                 xcount += 1
                 if vt == 'N':
